@@ -8,7 +8,7 @@ ID = "C11"
 RUN_MODULE = "Spec.TTLMap Run.C01 Run.C11"
 EXPLAIN = "explain"
 RULE = ("random histories (<= 60 events) of set/set_many/get/get_many/exists/incr/expire/delete/get_expire over 2-10 keys on a Memory of "
-        "size 1-6 with TTLs and advances (expired, unpurged entries occupy slots), purge task on/off, serializer on/off, direct or via the "
+        "size 1-6 with TTLs and advances (expired, unpurged entries occupy slots), purge task on/off (in 3 of 10 histories the commands share their instants with purge passes), serializer on/off, direct or via the "
         "facade; observed: results and list(store) before/after every command. non-trivial: at least one eviction happened (a key not "
         "named by a write command disappeared)")
 TRUSTED_BASE = c01.TRUSTED_BASE
@@ -23,7 +23,7 @@ def gen_cases(rng, tier):
     for _ in range(n):
         size = rng.choice([1, 2, 2, 3, 3, 4, 5, 6])
         nk = rng.randint(max(2, size), min(10, size + 4))
-        cases.append({"size": size, "purge": rng.random() < 0.4, "serializer": rng.choice(["none", "none", "secret"]),
+        cases.append({"size": size, "purge": rng.random() < 0.4, "align": rng.random() < 0.3, "serializer": rng.choice(["none", "none", "secret"]),
                       "facade": rng.random() < 0.25, "events": memrun.gen_history(rng, nk, rng.randint(3, 60))})
     if tier == "thorough":  # all histories of 4 events over 3 keys, size 1-2, from a small alphabet
         cmds = [["set", k, 1, 0, None] for k in "abc"] + [["get", k] for k in "ab"] + [["exists", "a"], ["incr", "b", 1, 0], ["expire", "a", 16], ["get_expire", "a"], ["set", "a", 2, 0, False]]
